@@ -12,13 +12,13 @@ CONSTANTS
   Maint = 1000
   MaxDelay = 1
   Quantum = 4
-  MaxTime = 20
+  MaxTime = 44
   Rule = "sum"
-  Cfgs = {"A"}
+  Cfgs = {"A", "B"}
   InitCfg = "A"
-  RL = "safe"
+  RL = "apifirst"
   Off = {}
-  Lim <- QStop
+  Lim <- QReload
 VIEW View
-INVARIANTS AtLeastOnce NoDuplicateWhenHealthy SilenceSurvivesRestart NoRepeatAfterRestart ReadyEventually RoutedByConfigInForce StatusShowsConfigInForce ReceiversAgree Sane
+INVARIANTS AtLeastOnce RoutedByConfigInForce StatusShowsConfigInForce Sane
 CHECK_DEADLOCK FALSE
